@@ -284,7 +284,7 @@ func c23Child(arg string) int {
 	rb, sb := uint32(8192+r.Intn(100000)), uint32(8192+r.Intn(100000))
 	mm, mc := uint32(r.Intn(1<<20)), uint32(r.Intn(100))
 	if h, err := helloOf(opcua.ReceiveBufferSize(rb), opcua.SendBufferSize(sb), opcua.MaxMessageSize(mm), opcua.MaxChunkCount(mc)); err == nil {
-		if h.RecvBuf != rb || h.SendBuf != sb || h.MaxMsg != mm || h.MaxChunks != mc {
+		if h.RecvBuf != rb || h.SendBuf != sb || (mm != 0 && h.MaxMsg != mm) || (mc != 0 && h.MaxChunks != mc) { // 0 = no preference
 			emit(c23Finding{Key: "c23:own-options-not-on-the-wire", Desc: fmt.Sprintf("client configured with recv=%d send=%d maxmsg=%d maxchunks=%d announced %+v", rb, sb, mm, mc, *h), Step: a.Clients})
 		}
 		// ... and that again must not have leaked into the defaults
